@@ -415,6 +415,10 @@ fn main() {
             };
             let log = sh.log.lock().unwrap().clone();
             runs.push(json!({"log": log, "res": [res.0, res.1], "stall": stall, "hang": hang}));
+            if hang {
+                // one hang is a verdict; do not spend the hang timeout on every other schedule
+                break;
+            }
         }
         write_line(&json!({ "runs": runs }));
     }
